@@ -329,7 +329,12 @@ def _retry_setup(ex: Explorer) -> None:
     c04.install(ex)
     # the exchange logic is C04's; here only the obligations about which transport object is
     # used after a reconnect (recovery needs the reconnected one)
-    ex.obligation_filter = lambda name: name.startswith("T-") and "transport" in name  # type: ignore[attr-defined]
+    # ... and that a connection lost before the first reply (error or empty read) is surfaced as
+    # a retry / MissingResponse with its cause, never as a bare connection error without
+    # reconnect
+    ex.obligation_filter = lambda name: (name.startswith("T-") and "transport" in name) or \
+        name.startswith(("O-connection-loss-before", "O-cause-set-iff",  # type: ignore[attr-defined]
+                         "P-parse_pdu-is-called-with-a-non-empty"))
 
 
 def build_units(tier: str) -> list[Unit]:
